@@ -54,7 +54,7 @@ def is_full(codec, p):
     return False
 
 
-def build_scenarios(work, tier, seed):
+def build_scenarios(work, tier, seed, foreign=True):
     rng = random.Random(seed * 104729 + 5)
     table = refcodec.write_payloads(seed, tier, work / "payloads")
     by = {p["name"]: p for p in table}
@@ -70,7 +70,7 @@ def build_scenarios(work, tier, seed):
                                "full": is_full(c, p)})
     # --- reference-made streams (library must read them)
     ref_payloads = table if tier == "thorough" else [p for p in table if p["cls"] != "small" or p["len"] in (5, 61, 257, 1024)]
-    for s in refcodec.make_foreign(ref_payloads, work / "foreign"):
+    for s in (refcodec.make_foreign(ref_payloads, work / "foreign") if foreign else []):
         normal.append(s)
     # --- damage
     smalls = [p for p in table if p["cls"] in ("empty", "one", "small")]
@@ -97,6 +97,9 @@ def build_scenarios(work, tier, seed):
         for lv in levels(c, tier):
             for vs in (vals_sets if tier == "thorough" and not (c == "zstandard" and lv >= 16) else vals_sets[1:2]):
                 normal.append({"k": "file", "codec": c, "level": lv, "values": vs})
+    # --- container files laid out by a foreign writer (reference codecs)
+    fvals = [b"", b"avro", Path(by["text-small"]["path"]).read_bytes()[:500], bytes(rng.randbytes(70))]
+    normal += refcodec.make_files(work / "ffiles", fvals)
     # --- the low-limit process: bombs, hostile bytes, at-limit payloads
     (work / "hostile").mkdir(exist_ok=True)
     edge = []
@@ -181,6 +184,66 @@ def run_harness(work, name, scns, limit=None, procs=1):
     return [by_id[s["id"]] for s in scns]
 
 
+def tampered(events):
+    """Binding self-test: copies of accepted events with ONE recorded field falsified; the trace spec must reject each
+    with the named clause.  -> list of (event, expected clause)"""
+    import copy
+    import hashlib
+    import zlib
+    out = []
+
+    def first(pred):
+        for e in events:
+            if pred(e):
+                return copy.deepcopy(e)
+        return None
+
+    def add(e, clause, f):
+        if e is not None:
+            f(e)
+            e["id"] = 1000000 + len(out)
+            out.append((e, clause))
+
+    ok_rt = lambda c: (lambda e: e["ev"] == "rt" and e["codec"] == c and e.get("full") and e["d_ok"] and 4 <= e["in_len"] <= 1024)
+
+    def t_trailer(e):
+        e["comp"][-1] ^= 1
+        e["trailer"][-1] ^= 1
+    add(first(ok_rt("snappy")), "C15:snappy-trailer-not-BE-CRC32-of-input", t_trailer)
+
+    def t_block(e):
+        e["comp"][0] ^= 1          # the preamble (declared length) no longer matches
+    add(first(ok_rt("snappy")), "C15:snappy-block-not-denoting-input", t_block)
+
+    def t_out(e):
+        e["out"][0] ^= 1
+        e["out_sha"] = hashlib.sha256(bytes(e["out"])).hexdigest()
+    add(first(ok_rt("deflate")), "C15:roundtrip-differs", t_out)
+
+    def t_zlib(e):
+        z = zlib.compress(bytes(e["input"]), 6)
+        e["comp"], e["comp_len"] = list(z), len(z)
+    add(first(ok_rt("deflate")), "C15:deflate-not-raw-rfc1951-denoting-input", t_zlib)
+    add(first(ok_rt("bzip2")), "C15:reference-decoder-rejects-library-stream", lambda e: e.update({"ref_ok": False, "ref_out": []}))
+    add(first(lambda e: e["ev"] == "rt" and e["codec"] == "xz" and not e.get("full") and e["d_ok"]), "C15:roundtrip-differs",
+        lambda e: e.update({"out_sha": "0" * 64}))
+    add(first(lambda e: e["ev"] == "rt" and e["codec"] == "zstandard" and e["d_ok"] and e["in_len"] > 0), "C15:roundtrip-decompress-failed",
+        lambda e: e.update({"d_ok": False, "out": [], "out_len": 0}))
+    add(first(lambda e: e["ev"] == "corrupt" and e["kind"] == "flip" and e["applied"] and not e["d_ok"]), "C15:wrong-snappy-checksum-accepted",
+        lambda e: e.update({"d_ok": True, "out": e["input"], "out_len": len(e["input"])}))
+    add(first(lambda e: e["ev"] == "hostile" and not e["d_ok"] and e["codec"] == "xz"), "C15:output-larger-than-limit",
+        lambda e: e.update({"d_ok": True, "out_len": e["limit"] + 1}))
+    add(first(lambda e: e["ev"] == "file" and e["codec"] == "bzip2" and e["w_ok"]), "C15:header-codec-name",
+        lambda e: e.update({"meta_codec": list(b"bzip3")}))
+    add(first(lambda e: e["ev"] == "file" and e["codec"] == "snappy" and e["r_ok"]), "C15:file-roundtrip",
+        lambda e: e.update({"r_values": e["r_values"][:-1]}))
+    add(first(lambda e: e["ev"] == "foreign" and e["origin"] == "spec" and e["codec"] == "snappy" and e["d_ok"] and e["plain_len"] > 0),
+        "C15:spec-made-stream-rejected", lambda e: e.update({"d_ok": False, "out": [], "out_len": 0}))
+    add(first(lambda e: e["ev"] == "foreign" and e["origin"] == "reference" and e["codec"] == "xz" and e["d_ok"] and e["plain_len"] > 0),
+        "C15:reference-made-stream-decoded-differently", lambda e: e.update({"out_sha": "1" * 64}))
+    return out
+
+
 def weight(e):
     """rough judging cost, to spread the heavy events over the chunks"""
     n = e.get("in_len", 0) + e.get("stream_len", 0) + e.get("plain_len", 0)
@@ -193,8 +256,12 @@ def run(prop, tier, seed, replay=None):
     work = vf.fresh_workdir(f"{prop}-{tier}")
     if replay:
         rp = json.loads(Path(replay).read_text())["payload"]
-        build_scenarios(work, rp["tier"], rp["seed"])        # regenerates the payload / foreign-stream files the scenario names
         scn = rp["scenario"]
+        # regenerate the payload / foreign-stream files the scenario names (deterministic in seed and tier)
+        build_scenarios(work, rp["tier"], rp["seed"], foreign="stream_file" in scn)
+        for k in ("payload", "stream_file", "plain_file", "file"):   # ... which live in this run's work directory
+            if k in scn:
+                scn[k] = str(work / Path(scn[k]).parent.name / Path(scn[k]).name)
         scn["id"] = 0
         evs = run_harness(work, "replay", [scn], limit=LOW_LIMIT if rp["low"] else None)
         groups = [(evs, [scn], rp["low"])]
@@ -240,9 +307,9 @@ def run(prop, tier, seed, replay=None):
     # vacuity: every kind and every codec must have been exercised
     if not replay:
         kinds = {(e["ev"], e["codec"]) for e in events}
-        for k in ("rt", "foreign", "corrupt", "hostile", "file"):
+        for k in ("rt", "foreign", "corrupt", "hostile", "file", "ffile"):
             for c in CODECS:
-                skip = (k == "foreign" and c == "zstandard") or (k == "corrupt" and c == "null")
+                skip = (k in ("foreign", "ffile") and c == "zstandard") or (k == "corrupt" and c == "null")
                 if (k, c) not in kinds and not skip:
                     raise vf.ToolError(f"no {k} event for codec {c} (vacuous run)")
         if not any(e["ev"] == "hostile" and e["limit"] == LOW_LIMIT for e in events):
@@ -274,6 +341,13 @@ def run(prop, tier, seed, replay=None):
         files.append((ci, f))
         pos += n
 
+    # binding self-test: falsified copies of accepted events must be rejected with the expected clause
+    tamp = tampered(events) if not replay else []
+    if tamp:
+        f = tdir / "codec-selftest.ndjson"
+        f.write_text("\n".join(json.dumps(e) for e, _ in tamp) + "\n")
+        files.append((99, f))
+
     def one(a):
         return vf.tlc_judge_file(work, "Trace_Codec.tla", "Trace_Codec.cfg", a[1], a[0], timeout=1500)
 
@@ -286,6 +360,13 @@ def run(prop, tier, seed, replay=None):
                 if s not in seen:
                     seen.add(s)
                     verdicts.append(json.loads(s))
+    if tamp:
+        got = {v["id"]: v for v in verdicts if v["id"] >= 1000000}
+        verdicts = [v for v in verdicts if v["id"] < 1000000]
+        missed = [(e["id"], e["ev"], e["codec"], clause) for e, clause in tamp if clause not in got.get(e["id"], {}).get("fail", [])]
+        if missed or len(tamp) < 10:
+            raise vf.ToolError(f"binding self-test: falsified events not rejected as expected: {missed} ({len(tamp)} tampered)")
+        rep.cov["selftest_tampered_events_rejected"] = len(tamp)
     vf.log(f"judged: {len(verdicts)} non-clean verdicts")
     rep.add_states(st, tr)
     rep.cov["traces_validated_against_impl"] = len(events)
@@ -298,7 +379,7 @@ def run(prop, tier, seed, replay=None):
     rep.cov["distinct_nontrivial"] = vf.distinct_hashes(
         [key(e) for e in events if not (e["ev"] == "rt" and e.get("in_len", 0) == 0 and e["codec"] == "null")])
     rep.cov["rule"] = RULE
-    rep.cov["per_kind"] = {k: sum(1 for e in events if e["ev"] == k) for k in ("rt", "foreign", "corrupt", "hostile", "file")}
+    rep.cov["per_kind"] = {k: sum(1 for e in events if e["ev"] == k) for k in ("rt", "foreign", "corrupt", "hostile", "file", "ffile")}
     rep.cov["judged_in_tla_from_bytes"] = sum(1 for e in events if e.get("full") or e["ev"] in ("corrupt", "file"))
     rep.cov["judged_by_reference_reading_only"] = sum(1 for e in events if e["ev"] == "rt" and not e.get("full") and e.get("ref_avail"))
     rep.cov["zstandard_events_round_trip_only"] = sum(1 for e in events if e["codec"] == "zstandard")
